@@ -116,6 +116,10 @@ def handle (j : Json) : Except String Json := do
               pure <| bools [("intervals", !unit || Spec.C17.meIntervalsOk nums L tol r),
                              ("envelope", !unit || Spec.C17.meEnvelopeOk nums L tol r),
                              ("limits", !unit || Spec.C17.meLimitsOk nums L tol r),
+                             -- independent restatement (centre / width, floor): no call of the model's quantiles
+                             ("valueCW", Spec.C17.meValueCWOk nums U L tol r),
+                             ("intervalsCW", !unit || Spec.C17.meIntervalsCWOk nums L tol r),
+                             ("fixed", nums.length > 300 || Spec.C17.rankFixed nums r),
                              ("perm", Spec.C17.mePermOk nums U L tol r),
                              ("value", Spec.C17.meValueOk nums U L tol r),
                              -- quadratic-with-list-access clause: small series only (implied by `value` + theorem)
